@@ -12,7 +12,7 @@ def build_tools(vname):
     tag = vname.replace("+", "_")
     for t in ("skinny-ctr", "skinny-tweak", "skinny-ecb"):
         exe = os.path.join(core.workdir(), "%s-%s" % (t, tag))
-        cmd = [v.cc] + v.opt + ["-g"] + v.common + mak["STDC"] + v.san + ["-I" + os.path.join(core.REPO, "include"), os.path.join(ex, t + ".c"), os.path.join(ex, "options.c"),
+        cmd = [v.cc] + v.opt + v.dbg + v.common + mak["STDC"] + v.san + ["-I" + os.path.join(core.REPO, "include"), os.path.join(ex, t + ".c"), os.path.join(ex, "options.c"),
                                                                         os.path.join(libdir, "libskinny.a"), "-o", exe]
         p = core.sh(cmd)
         if p.returncode != 0:
